@@ -211,6 +211,7 @@ structure DState where
   prog : Option Prog := none
   out : List String := []       -- newest first
   bad : List String := []
+  based : Bool := false         -- the reference snapshot / probe of this case has been printed
 
 def DState.emit (s : DState) (l : String) : DState := { s with out := l :: s.out }
 
@@ -243,7 +244,7 @@ def stepLine (s : DState) (line : String) : DState :=
     | none => { s with bad := line :: s.bad }
   | "#" :: _ => s
   | ["snap"] => s.emit ("snap " ++ snapshot s.names s.m)
-  | ["probe"] => s.emit ("probe " ++ probeText s.names s.m.cg s.m)
+  | ["probe"] => { s.emit ("probe " ++ probeText s.names s.m.cg s.m) with based := true }
   | "inject" :: oid :: _fn :: rest =>
     match s.prog with
     | none => { s with bad := line :: s.bad }
@@ -254,7 +255,7 @@ def stepLine (s : DState) (line : String) : DState :=
         | ["po", o] => [(.prevOb, s.names.valOf o)]
         | _ => []
       let baseCg := s.m.cg
-      let s1 := (s.emit ("base " ++ snapshot s.names s.m)).emit ("probe0 " ++ probeText s.names baseCg s.m)
+      let s1 := { (s.emit ("base " ++ snapshot s.names s.m)).emit ("probe0 " ++ probeText s.names baseCg s.m) with based := true }
       let free := runTop ob pre p 0 s.m
       let s2 := s1.emit ("free " ++ outcomeText s.names baseCg free)
       let n := match saveContext s.m with
@@ -270,7 +271,7 @@ def stepLine (s : DState) (line : String) : DState :=
     | none => { s with bad := line :: s.bad }
     | some p =>
       let baseCg := s.m.cg
-      let s1 := (s.emit ("base " ++ snapshot s.names s.m)).emit ("probe0 " ++ probeText s.names baseCg s.m)
+      let s1 := { (s.emit ("base " ++ snapshot s.names s.m)).emit ("probe0 " ++ probeText s.names baseCg s.m) with based := true }
       let free := runDriver p 0 s.m
       let s2 := s1.emit ("free " ++ outcomeText s.names baseCg free)
       let big := 1000000
@@ -291,7 +292,7 @@ def stepLine (s : DState) (line : String) : DState :=
     | some p =>
       let baseCg := s.m.cg
       let hbObj : Option Val := if kind == "hb" then some (s.names.valOf "t") else none
-      let s1 := (s.emit ("base " ++ snapshot s.names s.m)).emit ("probe0 " ++ probeText s.names baseCg s.m hbObj)
+      let s1 := { (s.emit ("base " ++ snapshot s.names s.m)).emit ("probe0 " ++ probeText s.names baseCg s.m hbObj) with based := true }
       let free := runBackend p 0 s.m
       let s2 := s1.emit ("free " ++ outcomeText s.names baseCg free hbObj)
       let big := 1000000
@@ -311,7 +312,10 @@ def stepLine (s : DState) (line : String) : DState :=
     | none => { s with bad := line :: s.bad }
     | some p =>
       let t := runTop (s.names.valOf oid) [] p 0 s.m
-      let s1 := s.emit ("run " ++ outcomeText s.names s.m.cg t)
+      -- the first evaluation of the case prints the reference snapshot and probe, as `inject` does
+      let s0 := if s.based then s else
+        { (s.emit ("base " ++ snapshot s.names s.m)).emit ("probe0 " ++ probeText s.names s.m.cg s.m) with based := true }
+      let s1 := s0.emit ("run " ++ outcomeText s.names s.m.cg t)
       -- side effects stay; the registers are what the evaluation left
       { s1 with m := { t.after with out := [], shape := none } }
   | "input" :: oid :: rest =>
